@@ -70,6 +70,69 @@ def record(job):
     return {"repmax": repmax, "nv": nv, "events": events, "seed": seed}
 
 
+def record_repo_runner(job):
+    """the repository's OWN test runners (tests/simulations_package_test.py) run under recording wrappers: their
+    assertions are weak, the trace specification is not"""
+    name, = job
+    import importlib
+    import sys
+    repo = [p for p in sys.path if p.rstrip("/").endswith("repo") or os.path.isdir(os.path.join(p, "tests"))]
+    for r in repo:
+        if os.path.isdir(os.path.join(r, "tests")) and r not in sys.path[:1]:
+            sys.path.insert(0, r)
+            break
+    try:
+        mod = importlib.import_module("tests.simulations_package_test")
+    except Exception as ex:     # the test module is not importable: nothing to record (not a verdict)
+        return {"skip": f"{type(ex).__name__}: {ex}"}
+    cls = getattr(mod, name, None)
+    if cls is None:
+        return {"skip": f"{name} not found"}
+    from pyphysim.simulations.runner import SkipThisOne
+    events = []
+    runner = cls()
+    att = {}
+    orig_run, orig_kg = runner._run_simulation, runner._keep_going
+
+    def run(current_params):
+        v = current_params.unpack_index + 1 if current_params.unpack_index >= 0 else 1
+        a = att.get(v, 0) + 1
+        att[v] = a
+        try:
+            r = orig_run(current_params)
+        except SkipThisOne:
+            events.append({"e": "call", "v": v, "a": a, "ok": False})
+            raise
+        events.append({"e": "call", "v": v, "a": a, "ok": True})
+        return r
+
+    def kg(current_params, current_sim_results, current_rep):
+        v = current_params.unpack_index + 1 if current_params.unpack_index >= 0 else 1
+        ret = orig_kg(current_params, current_sim_results, current_rep)
+        events.append({"e": "test", "v": v, "r": int(current_rep), "s": int(current_sim_results["num_skipped_reps"][-1].get_result()),
+                       "ret": bool(ret)})
+        return ret
+
+    def fin(current_params, current_params_sim_results=None):
+        v = current_params.unpack_index + 1 if current_params.unpack_index >= 0 else 1
+        res = current_params_sim_results
+        first = [n for n in res.get_result_names() if n not in ("elapsed_time", "num_skipped_reps")][0]
+        events.append({"e": "varend", "v": v, "r": int(res[first][-1].num_updates), "m": int(res[first][-1].num_updates),
+                       "s": int(res["num_skipped_reps"][-1].get_result())})
+
+    runner._run_simulation = run
+    runner._keep_going = kg
+    runner._on_simulate_current_params_finish = fin
+    try:
+        runner.simulate()
+    except Exception as ex:
+        return {"error": f"{name}.simulate() raised {type(ex).__name__}: {ex}", "seed": name}
+    for k, e in enumerate([e for e in events if e["e"] == "varend"]):
+        e["r"] = int(runner.runned_reps[k])
+    events.append({"e": "simend", "runned": [int(x) for x in runner.runned_reps]})
+    return {"repmax": int(runner.rep_max), "nv": int(runner.params.get_num_unpacked_variations()), "events": events, "seed": name}
+
+
 def from_replay(case, log):
     """a stage-R run (plan-driven) as a trace; `test` return values recomputed from the plan"""
     cfg = case["cfg"]
@@ -133,6 +196,14 @@ def run(ctx, replayed):
             good.append(t)
     ctx.sample({"recorded_trace": good[0]["events"][:8]} if good else {})
     validate(ctx, good, "random-runs")
+    own = [t for t in pool_map(record_repo_runner, [("_DummyRunner",), ("_DummyRunnerWithSkip",), ("_DummyRunnerRandom",)], procs=3)]
+    for t in own:
+        if "error" in t:
+            ctx.violation("repository test runner: " + t["error"], {"kind": "trace-error", "seed": t["seed"]})
+    own = [t for t in own if "events" in t]
+    ctx.notes["repo_test_runners_validated"] = [t["seed"] for t in own]
+    if own:
+        validate(ctx, own, "repository-test-runners")
     rt = [x for x in (from_replay(c, log) for c, log in replayed[:3000]) if x]
     if rt:
         validate(ctx, rt, "replayed-runs")
